@@ -149,7 +149,10 @@ SeedsSeg6s == {
 SeedsSeg333 == {<<>>, << <<KPaint,0,13851,1,2>>, <<KPaint,1,113467392,2,2>> >>}
 SeedsSeg5s == {
    << <<KPaint,0,1,1,2>>, <<KPaint,0,4,2,4>>, <<KPaint,1,3,3,2>>, <<KPaint,2,1,5,6>>, <<KAddEdge,1,5,0,0>>, <<KPaint,1,4,4,4>> >>,
-   << <<KPaint,0,1,1,2>>, <<KPaint,2,1,3,2>>, <<KPaint,1,6,2,4>>, <<KPaint,2,6,4,4>> >> }
+   << <<KPaint,0,1,1,2>>, <<KPaint,2,1,3,2>>, <<KPaint,1,6,2,4>>, <<KPaint,2,6,4,4>> >>,
+   \* (iii) node order by time 0, 1, 0: the first node of frame 0 has an out-edge with overlapping masks, a second node
+   \* of frame 0 is created after the node of frame 1
+   << <<KPaint,0,3,1,2>>, <<KPaint,1,3,2,2>>, <<KPaint,0,4,3,4>> >> }
 \* feature-switching suites: states in which a feature is REGISTERED AND ACTIVE BUT STALE (disabled, edited, enabled
 \* again without recomputation) - from there "enable with recomputation" must still yield the reference values
 SeedsFeatSeg == {
